@@ -1530,6 +1530,6 @@ def replay(record):
 
 MANIFEST = {
     "technique": "TLA+ life-cycle state machine (specs/C20) model-checked by TLC incl. liveness, plus TLA+ specifications of the result mapping (rows mapped back to the input order by header number) and of the class-specific options and results (distance matrix, guide trees: what the program wrote, for every order of every subset of the option setters); every (state, call) pair / transition replayed against the real wrappers with real child processes; TLC-generated result and option cases run through the real wrappers; recorded call sequences and recorded runs validated by TLC",
-    "level_text": "TLC explores the complete reachable state space of the wrapper life cycle (the construction, 15 public calls and two environment steps x 246 behaviours of the environment: refused construction (binary missing / wrong version / no version when asked, refused arguments), launch failure, row order, complete / truncated / garbage / no output, exit 0 / failing exit / death by SIGKILL, SIGTERM, SIGSEGV, output volume below / above the OS pipe size on STDOUT / STDERR, a program that dies on / resists the signals it can catch; closes at depth 6) and checks RunEndsClean, NoObjectNoResources, ResultsOnlyAfterJoin, ResultsOnlyOfSuccess, refusal-is-a-no-op, legal-iff-allowed and, under weak fairness, that a started program leaves its working phase and that a program waiting for a reader is ended by join. The graph of 23 core behaviours is executed against ClustalOmegaApp, MuscleApp, Muscle5App, MafftApp (real child processes of a fake tool whose progress the harness triggers) and a minimal Application subclass: quick covers every (state, call) pair on every class, thorough every transition; wrapper state, outcome class, child-process liveness (/proc), temporary files (a private temporary directory), working directory, number of clean-up runs and result values are compared after each call, the construction included. The result mapping is specified on values (MsaResults.tla) and checked for 2..101 (thorough ..120) sequences x 6 emission orders x length profiles x padding x sequence type, incl. alignments larger than a pipe. The class-specific results (MsaOptions.tla) are checked for every order of every subset of the option setters of each class (thorough: every sequence of up to 3 setters) x 3 (5) numbers of sequences x emission orders, the program writing known, distinguishable content into every output file it is asked for. Random longer call sequences and random runs (up to 125 sequences, random setter sequences, random caller matrices and trees) are validated by TLC against the same operators.",
+    "level_text": "TLC explores the complete reachable state space of the wrapper life cycle (the construction, 15 public calls and two environment steps x 246 behaviours of the environment: refused construction (binary missing / wrong version / no version when asked, refused arguments), launch failure, row order, complete / truncated / garbage / no output, exit 0 / failing exit / death by SIGKILL, SIGTERM, SIGSEGV, output volume below / above the OS pipe size on STDOUT / STDERR, a program that dies on / resists the signals it can catch; closes at depth 6) and checks RunEndsClean, NoObjectNoResources, ResultsOnlyAfterJoin, ResultsOnlyOfSuccess, refusal-is-a-no-op, legal-iff-allowed and, under weak fairness, that a started program leaves its working phase and that a program waiting for a reader is ended by join. The graph of 23 core behaviours is executed against ClustalOmegaApp, MuscleApp, Muscle5App, MafftApp (real child processes of a fake tool whose progress the harness triggers) and a minimal Application subclass: quick covers every (state, call) pair on every class, thorough every transition; wrapper state, outcome class, child-process liveness (/proc), temporary files (a private temporary directory), working directory, number of clean-up runs and result values are compared after each call, the construction included. The result mapping is specified on values (MsaResults.tla) and checked for 2..101 (thorough ..120) sequences x 6 emission orders x length profiles x padding x sequence type, incl. alignments larger than a pipe. The class-specific results (MsaOptions.tla) are checked for every order of every subset of the option setters of each class (thorough: every sequence of up to 3 setters) x 3 (thorough 5) numbers of sequences x emission orders, the program writing known, distinguishable content into every output file it is asked for. Random longer call sequences and random runs (up to 125 sequences, random setter sequences, random caller matrices and trees) are validated by TLC against the same operators.",
     "level_note": "The external programs are replaced by fixtures/bin/fake_msa; timing is controlled by trigger / marker files; a call that does not return within 20 s is the outcome Hang. Wrapper state is read from the private flag (the public query is its own action). After a failed launch or a refused construction only clean-up obligations are compared. A construction can only fail on the version answer for the classes that ask for it. Without full_matrix_calculation() the distance-matrix getter may refuse or hand out the program's matrix. Trusted: TLC, /proc/<pid>/stat for process liveness, the fake program's own copy of what it emitted (cross-checked against the specification's environment in S2), the fixture's known matrix / tree content.",
 }
